@@ -1,4 +1,5 @@
 import os
+import csv
 import warnings
 import decimal
 import datetime
@@ -138,6 +139,10 @@ class load(DataStreamProcessor):
         return custom_parsers
 
     def safe_process_datapackage(self, dp: Package):
+
+        # Cells may be longer than the csv module's default limit (131072): the dumpers write them
+        if csv.field_size_limit() < 2 ** 31 - 1:
+            csv.field_size_limit(2 ** 31 - 1)
 
         # If loading from datapackage & resource iterator:
         if isinstance(self.load_source, tuple):
